@@ -264,6 +264,43 @@ theorem field_list_exchange (c : Connection S) (rest : Bytes) :
       · simp only [hb, Bool.false_eq_true, if_false, Except.map, List.append_assoc, List.cons_append, List.nil_append]
         rfl
 
+/-- **a whole COM_STMT_PREPARE exchange**: text that does not decode → exactly one ERR, no statement registered; otherwise the
+    statement is registered under the id the response announces, with the number of placeholders of its text, the prepare-OK
+    block is written and drained once, the id counter advances; the sequence reset comes last and the loop goes on -/
+theorem prepare_exchange (c : Connection S) (rest : Bytes) :
+    let c1 : Connection S := { c with _executing := true }
+    match E.decode c.client_charset rest with
+    | none => command_step E cp pc coldef parse app ur fls fcd other err af c (22 :: rest)
+        = ({ c with _executing := false, out := c.out ++ [Ev.write (err { c with _executing := false }) true, Ev.reset_seq] }, true)
+    | some sql =>
+      let st : PreparedStatement S := { stmt_id := c.prepared_stmt_seq.value, sql := sql, num_params := cp sql, param_buffers := none, cursor := none }
+      ∃ (c' : Connection S) (w f : Nat), command_step E cp pc coldef parse app ur fls fcd other err af c (22 :: rest)
+          = ({ c' with _executing := false, out := c'.out ++ [Ev.reset_seq] }, true) ∧
+        c'.prepared_stmts = dictSet c.prepared_stmts c.prepared_stmt_seq.value st ∧
+        c'.prepared_stmt_seq = (seq_next c.prepared_stmt_seq).2 ∧
+        c'.out = c.out ++ (prepareResponse pc c1 st w f).map (fun p => Ev.write p false) ++ [Ev.drain] := by
+  intro c1
+  have hu : untranslated.contains (22 : UInt8).toNat = false := by decide
+  have hd : dispatch E cp pc coldef parse app ur fls fcd other c1 (22 : UInt8).toNat rest = (handle_stmt_prepare E cp pc c1 rest).map some := by
+    simp [dispatch]
+  have hs := handle_stmt_prepare_spec E cp pc c1 rest
+  have hcs : c1.client_charset = c.client_charset := rfl
+  rw [hcs] at hs
+  cases hp : E.decode c.client_charset rest with
+  | none =>
+    rw [hp] at hs; dsimp only at hs ⊢
+    simp only [command_step, hu, Bool.false_eq_true, if_false]
+    rw [hd, hs]
+    simp only [Except.map, List.append_assoc, List.cons_append, List.nil_append]
+    rfl
+  | some sql =>
+    rw [hp] at hs; dsimp only at hs ⊢
+    obtain ⟨c', w, f, hr, h1, h2, _, _, h5⟩ := hs
+    refine ⟨c', w, f, ?_, h1, h2, h5⟩
+    simp only [command_step, hu, Bool.false_eq_true, if_false]
+    rw [hd, hr]
+    rfl
+
 /-- the loop, one packet at a time -/
 theorem loop_cons (c : Connection S) (p : Bytes) (ps : List Bytes) :
     command_loop E cp pc coldef parse app ur fls fcd other err af c (p :: ps)
